@@ -286,6 +286,21 @@ def selftest_family(ctx, fam, inputs, records, n=40):
                                  f'records of family {fam.name}, e.g. {canon(missed)[:800]}')
 
 
+def raised_by_code_under_test(text):
+    """Does a traceback (text) end inside the repository's own sources?  Then the exception came out of the code under test while the
+    harness was driving it the way it does - successfully - on the unchanged tree: that is a verdict about the code, not a failure of
+    the machinery.  Returns (file, function) of the innermost frame, or None."""
+    import re
+    frames = re.findall(r'File "([^"]+)", line \d+, in (\S+)', text or '')
+    if not frames:
+        return None
+    fname, func = frames[-1]
+    repo = os.environ.get('GAMBIT_REPO', '/repo')
+    if '/src/gambit/' in fname and (fname.startswith(repo) or '/gambit/' in fname) and '/harness/' not in fname:
+        return os.path.basename(fname), func
+    return None
+
+
 RERUN = object()      # marker: replay by re-running the check and looking for the same violation key
 
 
@@ -306,12 +321,19 @@ def main(pid, run, replay=None, argv=None):
             if replay is None:
                 print('replay not supported for this property', file=sys.stderr)
                 return 2
-            res = RERUN if replay is RERUN else replay(ctx, scen)
+            res = RERUN if (replay is RERUN or scen.get('family') == 'unexpected-exception') else replay(ctx, scen)
             if res is RERUN:
                 # scenarios of this check depend on a world built by the check itself: re-run the quick tier and look for the
                 # same violation key
                 ctx.tier = 'quick'
-                run(ctx)
+                try:
+                    run(ctx)
+                except Exception as e2:
+                    txt = str(e2) if isinstance(e2, tlc.MachineryError) else traceback.format_exc()
+                    if scen.get('family') == 'unexpected-exception' and raised_by_code_under_test(txt):
+                        print('REPLAY still violates')
+                        return 1
+                    raise
                 ok = scen.get('key') not in [k for k, _, _ in ctx.violations]
             else:
                 ok = res
@@ -322,15 +344,21 @@ def main(pid, run, replay=None, argv=None):
             ctx.assumptions.append(note)
             print('NOTE ' + note, flush=True)
         run(ctx)
-    except tlc.MachineryError as e:
-        print(f'MACHINERY-FAILURE property={pid}: {e}', file=sys.stderr, flush=True)
-        ctx.write_evidence(crashed=str(e)[:2000])
-        return 2
     except Exception as e:
-        traceback.print_exc()
-        print(f'MACHINERY-FAILURE property={pid}: {type(e).__name__}: {e}', file=sys.stderr, flush=True)
-        ctx.write_evidence(crashed=f'{type(e).__name__}: {e}')
-        return 2
+        text = str(e) if isinstance(e, tlc.MachineryError) else traceback.format_exc()
+        where = None if args.replay else raised_by_code_under_test(text)
+        if where is None:
+            if not isinstance(e, tlc.MachineryError):
+                traceback.print_exc()
+            print(f'MACHINERY-FAILURE property={pid}: {e if isinstance(e, tlc.MachineryError) else type(e).__name__ + ": " + str(e)}', file=sys.stderr, flush=True)
+            ctx.write_evidence(crashed=str(e)[:2000])
+            return 2
+        # the code under test raised where it does not on the unchanged tree: reported as a violation (the scenario is the check itself)
+        last = text.strip().splitlines()[-1][:200]
+        ctx.report('unexpected-exception', dict(tier=args.tier, seed=seed), dict(traceback=text[-3000:]),
+                   ['the-code-under-test-raised-an-exception-the-specification-does-not-allow-here'],
+                   key=f'unexpected-exception:{where[0]}:{where[1]}', describe=f'{last} (innermost frame {where[0]}:{where[1]})')
+        ctx.notes.append('the run ended early: an exception came out of the code under test; coverage figures are partial')
     ctx.write_evidence()
     nv = len(ctx.violations)
     print(f'{pid} {args.tier}: states={ctx.states} transitions={ctx.transitions} judged={ctx.traces} '
